@@ -33,6 +33,9 @@ func checkC17(ctx *Ctx, r *Report) {
 	c17AssignmentsConserved(ctx, r)
 	c17ExactLookups(ctx, r)
 	c17AppendOnSharedSlice(ctx, r)
+	c17CopyOnWriteAppends(ctx, r)
+	c17ArgumentUsesThroughEnvelopes(ctx, r)
+	c17PathPrefixThroughArrays(ctx, r)
 	c17RenameArgumentsCovers(ctx, r)
 	c17MergedPathsPrefixed(ctx, r)
 	c03MapOrderIn(ctx, r, []string{"internal/veneers"})
@@ -1458,4 +1461,319 @@ func c17UnfoldTestsTarget(ctx *Ctx, r *Report) {
 	})
 	r.Count("boolean tests in unfold_boolean", n)
 	r.Floor("boolean tests in unfold_boolean", 1)
+}
+
+// c17CopyOnWriteAppends: options and builders travel by value through the veneers; a by-value copy shares the backing
+// arrays of its slices with every other copy. `x.F = append(x.F, …)` on such a copy writes into the shared array
+// whenever it has spare capacity: two copies of one option that both append (the two options unfold_boolean makes,
+// the options merge_into / compose copy) overwrite each other's element. Rule: in the veneer packages and in the
+// methods of ast.Option / ast.Builder, an in-place append to a slice field reached from a parameter or receiver of
+// type Option / Builder (or from a local that is a plain copy of one) is written copy-on-write — the first argument of
+// the append is itself a fresh copy (`append(append([]T(nil), x.F...), …)`).
+func c17CopyOnWriteAppends(ctx *Ctx, r *Report) {
+	optT := ctx.LookupType("internal/ast", "Option")
+	bldT := ctx.LookupType("internal/ast", "Builder")
+	objT := ctx.LookupType("internal/ast", "Object")
+	if optT == nil || bldT == nil {
+		r.Undecided("anchor lost: ast.Option / ast.Builder")
+		return
+	}
+	carrier := func(t types.Type) bool {
+		n := namedOf(stripContainers(t))
+		_ = objT
+		return n != nil && (n == optT || n == bldT)
+	}
+	pkgs := append([]string{"internal/ast"}, veneerPkgs...)
+	n := 0
+	for _, rel := range pkgs {
+		p := ctx.Pkg(rel)
+		if p == nil {
+			continue
+		}
+		info := p.TypesInfo
+		for _, file := range p.Syntax {
+			for _, d := range file.Decls {
+				fd, ok := d.(*ast.FuncDecl)
+				if !ok || fd.Body == nil {
+					continue
+				}
+				if rel == "internal/ast" {
+					// only the methods of Option / Builder
+					if fd.Recv == nil || len(fd.Recv.List) == 0 || !carrier(info.TypeOf(fd.Recv.List[0].Type)) {
+						continue
+					}
+				}
+				fobj, _ := info.Defs[fd.Name].(*types.Func)
+				// parameters and receivers (of the function and of every literal inside it) that carry an option / builder
+				roots := map[types.Object]bool{}
+				addFields := func(fl *ast.FieldList) {
+					if fl == nil {
+						return
+					}
+					for _, f := range fl.List {
+						for _, nm := range f.Names {
+							if o := info.Defs[nm]; o != nil && carrier(o.Type()) {
+								roots[o] = true
+							}
+						}
+					}
+				}
+				addFields(fd.Recv)
+				addFields(fd.Type.Params)
+				ast.Inspect(fd.Body, func(m ast.Node) bool {
+					if fl, ok := m.(*ast.FuncLit); ok {
+						addFields(fl.Type.Params)
+					}
+					return true
+				})
+				directParams := map[types.Object]bool{}
+				for o := range roots {
+					// `builders[i].X`: elements of a slice parameter are not the by-value copy in question
+					if _, isSlice := o.Type().Underlying().(*types.Slice); !isSlice {
+						directParams[o] = true
+					}
+				}
+				// plain copies: x := param / for _, x := range params
+				for changed := true; changed; {
+					changed = false
+					ast.Inspect(fd.Body, func(m ast.Node) bool {
+						switch x := m.(type) {
+						case *ast.AssignStmt:
+							if x.Tok == token.DEFINE && len(x.Lhs) == 1 && len(x.Rhs) == 1 {
+								if id, ok := x.Lhs[0].(*ast.Ident); ok {
+									if src := rootIdent(x.Rhs[0]); src != nil && isAccessPath(x.Rhs[0]) && roots[objOf(info, src)] {
+										if o := info.Defs[id]; o != nil && carrier(o.Type()) && !roots[o] {
+											roots[o] = true
+											changed = true
+										}
+									}
+								}
+							}
+						case *ast.RangeStmt:
+							if id, ok := x.Value.(*ast.Ident); ok && x.Tok == token.DEFINE {
+								if src := rootIdent(x.X); src != nil && roots[objOf(info, src)] {
+									if o := info.Defs[id]; o != nil && carrier(o.Type()) && !roots[o] {
+										roots[o] = true
+										changed = true
+									}
+								}
+							}
+						}
+						return true
+					})
+				}
+				if len(roots) == 0 {
+					continue
+				}
+				seen := map[string]int{}
+				ast.Inspect(fd.Body, func(m ast.Node) bool {
+					as, ok := m.(*ast.AssignStmt)
+					if !ok || len(as.Lhs) != 1 || len(as.Rhs) != 1 {
+						return true
+					}
+					c, ok := ast.Unparen(as.Rhs[0]).(*ast.CallExpr)
+					if !ok || !isBuiltinCall(info, c, "append") || len(c.Args) < 2 {
+						return true
+					}
+					root := rootIdent(as.Lhs[0])
+					if root == nil || !roots[objOf(info, root)] {
+						return true
+					}
+					if _, isSel := ast.Unparen(as.Lhs[0]).(*ast.SelectorExpr); !isSel {
+						return true
+					}
+					// only slices of strings and of assignments are shared this way without a DeepCopy in between; element
+					// types that own the option list itself (builders[i].Options = append(...)) are judged by the
+					// sibling rule c17AppendOnSharedSlice
+					st, ok := info.TypeOf(as.Lhs[0]).Underlying().(*types.Slice)
+					if !ok {
+						return true
+					}
+					// slices of strings (comments, trails) on any copy; slices of assignments only when reached directly from
+					// the parameter (locals rebuilt from fresh storage are judged by the sibling rule c17AppendOnSharedSlice)
+					elem := st.Elem().String()
+					_, direct := directParams[objOf(info, root)]
+					if elem != "string" && !(strings.HasSuffix(elem, "ast.Assignment") && direct) {
+						return true
+					}
+					n++
+					key := ctx.FuncName(fobj) + " appends to " + exprString(as.Lhs[0])
+					seen[key]++
+					cons := key
+					if seen[key] > 1 {
+						cons = fmt.Sprintf("%s #%d", key, seen[key])
+					}
+					inPlace := sameAccessPath(info, as.Lhs[0], c.Args[0])
+					fresh := false
+					if inner, ok := ast.Unparen(c.Args[0]).(*ast.CallExpr); ok && isBuiltinCall(info, inner, "append") && len(inner.Args) == 2 && inner.Ellipsis.IsValid() {
+						if sameAccessPath(info, inner.Args[1], as.Lhs[0]) {
+							fresh = true
+						}
+					}
+					r.Check(fresh || !inPlace, "effects/copy-on-write-append", cons, as.Pos(), "the slice is copied before the element is appended",
+						exprString(as.Lhs[0])+" is appended to in place on a value of type Option / Builder that arrived by value: the backing array is shared with every other copy of that value, and with spare capacity a sibling copy that appends too overwrites this element (unfold_boolean + add_comments: the comment added to `readonly` replaced the one added to `editable`)")
+					return true
+				})
+			}
+		}
+	}
+	r.Count("appends to string / assignment slices of by-value options and builders", n)
+	r.Floor("appends to string / assignment slices of by-value options and builders", 4)
+}
+
+// c17ArgumentUsesThroughEnvelopes: an option action that looks for the uses of an argument by comparing
+// `….Value.Argument.Name` with a name sees the direct value of each assignment only. After struct_fields_as_arguments
+// on an appended list the argument lives inside an envelope (`links.append(Link{target: target})`). Every function of
+// the option actions that matches assignment values by argument name also walks the envelopes: it calls (or is) a
+// function that ranges over `.Envelope.Values` and descends again.
+func c17ArgumentUsesThroughEnvelopes(ctx *Ctx, r *Report) {
+	p := ctx.Pkg("internal/veneers/option")
+	if p == nil {
+		r.Undecided("anchor lost: internal/veneers/option")
+		return
+	}
+	info := p.TypesInfo
+	// envelope walkers: functions that range over Envelope.Values and call themselves
+	walkers := map[*types.Func]bool{}
+	for _, f := range p.Syntax {
+		for _, d := range f.Decls {
+			fd, ok := d.(*ast.FuncDecl)
+			if !ok || fd.Body == nil {
+				continue
+			}
+			fobj, _ := info.Defs[fd.Name].(*types.Func)
+			ranges, recurses := false, false
+			ast.Inspect(fd.Body, func(n ast.Node) bool {
+				switch x := n.(type) {
+				case *ast.RangeStmt:
+					if ff := fieldOf(info, x.X); ff != nil && ff.Name() == "Values" && strings.Contains(exprString(x.X), "Envelope") {
+						ranges = true
+					}
+				case *ast.CallExpr:
+					if callee(info, x) == fobj {
+						recurses = true
+					}
+				}
+				return true
+			})
+			if ranges && recurses {
+				walkers[fobj] = true
+			}
+		}
+	}
+	r.Count("envelope walkers in the option actions", len(walkers))
+	r.Floor("envelope walkers in the option actions", 2)
+	n := 0
+	for _, f := range p.Syntax {
+		for _, d := range f.Decls {
+			fd, ok := d.(*ast.FuncDecl)
+			if !ok || fd.Body == nil {
+				continue
+			}
+			fobj, _ := info.Defs[fd.Name].(*types.Func)
+			if walkers[fobj] {
+				continue
+			}
+			matches := false
+			var at token.Pos
+			ast.Inspect(fd.Body, func(m ast.Node) bool {
+				be, ok := m.(*ast.BinaryExpr)
+				if !ok || (be.Op != token.EQL && be.Op != token.NEQ) {
+					return true
+				}
+				for _, side := range []ast.Expr{be.X, be.Y} {
+					if txt := exprString(side); strings.HasSuffix(txt, ".Value.Argument.Name") {
+						matches = true
+						at = be.Pos()
+					}
+				}
+				return true
+			})
+			if !matches {
+				continue
+			}
+			n++
+			walks := false
+			ast.Inspect(fd.Body, func(m ast.Node) bool {
+				if c, ok := m.(*ast.CallExpr); ok {
+					if fn := callee(info, c); fn != nil && walkers[fn] {
+						walks = true
+					}
+				}
+				return true
+			})
+			r.Check(walks, "effects/argument-uses-through-envelopes", ctx.FuncName(fobj)+" looks for an argument inside envelopes too", at,
+				"the function also calls an envelope walker",
+				"the function finds the uses of an argument by comparing the direct value of each assignment only: an argument used inside an envelope (after struct_fields_as_arguments on an appended list) is missed — the rewritten option no longer declares an argument its assignment still reads (Go: undefined variable)")
+		}
+	}
+	r.Count("option actions matching assignment values by argument name", n)
+	r.Floor("option actions matching assignment values by argument name", 2)
+}
+
+// c17PathPrefixThroughArrays: an option action that extends the path of an existing assignment with the fields of a
+// struct (`prefix.Append(…)`, `prefix.AppendStructField(…)`) produces `prefix.field`. When the prefix ends in a list
+// (the option appends one element: array_to_append) that is not a chain of struct fields. Every such function tests
+// the last item of the prefix for being an array, as struct_fields_as_arguments does (`assignIntoList`).
+func c17PathPrefixThroughArrays(ctx *Ctx, r *Report) {
+	p := ctx.Pkg("internal/veneers/option")
+	if p == nil {
+		r.Undecided("anchor lost: internal/veneers/option")
+		return
+	}
+	info := p.TypesInfo
+	n := 0
+	for _, f := range p.Syntax {
+		for _, d := range f.Decls {
+			fd, ok := d.(*ast.FuncDecl)
+			if !ok || fd.Body == nil {
+				continue
+			}
+			fobj, _ := info.Defs[fd.Name].(*types.Func)
+			// locals defined from the path of an assignment of the option
+			prefixes := map[types.Object]bool{}
+			ast.Inspect(fd.Body, func(m ast.Node) bool {
+				as, ok := m.(*ast.AssignStmt)
+				if !ok || as.Tok != token.DEFINE || len(as.Lhs) != 1 || len(as.Rhs) != 1 {
+					return true
+				}
+				if sel, ok := ast.Unparen(as.Rhs[0]).(*ast.SelectorExpr); ok && sel.Sel.Name == "Path" && strings.Contains(exprString(sel.X), "ssignments[") {
+					if id, ok := as.Lhs[0].(*ast.Ident); ok {
+						prefixes[info.Defs[id]] = true
+					}
+				}
+				return true
+			})
+			for pre := range prefixes {
+				extended := token.NoPos
+				tested := false
+				ast.Inspect(fd.Body, func(m ast.Node) bool {
+					c, ok := m.(*ast.CallExpr)
+					if !ok {
+						return true
+					}
+					sel, ok := ast.Unparen(c.Fun).(*ast.SelectorExpr)
+					if !ok {
+						return true
+					}
+					if (sel.Sel.Name == "Append" || sel.Sel.Name == "AppendStructField") && isIdentOf(info, sel.X, pre) && !extended.IsValid() {
+						extended = c.Pos()
+					}
+					if sel.Sel.Name == "IsArray" && strings.HasPrefix(exprString(sel.X), pre.Name()+".Last()") {
+						tested = true
+					}
+					return true
+				})
+				if !extended.IsValid() {
+					continue
+				}
+				n++
+				r.Check(tested, "siblings/path-prefix-through-arrays", ctx.FuncName(fobj)+" extends "+pre.Name()+" with struct fields", extended,
+					"the last item of the prefix is tested for being a list",
+					"the function appends struct fields to the path of an existing assignment without testing whether that path ends in a list: for an option that appends to a list (array_to_append first) it produces `links.title = title` on `links []Link` — not a chain of fields of the built object (Go: type []Link has no field Title)")
+			}
+		}
+	}
+	r.Count("option actions extending an assignment path with struct fields", n)
+	r.Floor("option actions extending an assignment path with struct fields", 2)
 }
